@@ -347,6 +347,7 @@ impl<'a> Run<'a> {
         self.dev.with(|d| {
             d.log_data = true;
             d.wlog.clear();
+            d.wshort.clear();
             d.flush_marks.clear();
         });
     }
@@ -1608,13 +1609,14 @@ impl<'a> Run<'a> {
                     }
                     if let Some(sess) = self.sess.take() {
                         // (the write log and the image stay: C14 evaluates them after the history)
-                        let logs = self.dev.with(|d| (std::mem::take(&mut d.wlog), std::mem::take(&mut d.flush_marks)));
+                        let logs = self.dev.with(|d| (std::mem::take(&mut d.wlog), std::mem::take(&mut d.flush_marks), std::mem::take(&mut d.wshort)));
                         let snap = self.dev.snapshot();
                         sess.abandon();
                         self.dev.with(|d| {
                             d.store = snap;
                             d.wlog = logs.0;
                             d.flush_marks = logs.1;
+                            d.wshort = logs.2;
                         });
                     }
                     return Ok(true);
@@ -2009,6 +2011,7 @@ impl<'a> Run<'a> {
         if let Some(pre) = pre_unmount {
             let writes: Vec<(u64, Vec<u8>)> = self.dev.with(|d| {
                 d.log_data = false;
+                d.wshort.truncate(wlog_before);
                 d.wlog.split_off(wlog_before)
             });
             if watch_order {
